@@ -402,7 +402,7 @@ def _representable(ref):
     fx = np.array([float(x) for x in xs])
     fw = np.array([float(w) for w in ws])
     # nodes closer than a few ulp are not reliably distinct in float64 either
-    gap = 8 * EPS * np.maximum(1.0, np.abs(fx[:-1])) if len(fx) > 1 else 0
+    gap = 8 * EPS * np.maximum(np.abs(fx[:-1]), np.abs(fx[1:])) if len(fx) > 1 else 0
     return bool(np.all(np.isfinite(fx)) and np.all(np.isfinite(fw)) and (len(fx) < 2 or np.all(np.diff(fx) > gap)))
 
 
